@@ -24,7 +24,7 @@ const (
 var purePackages = []string{
 	"strings", "unicode", "unicode/utf8", "path/filepath", "path", "go/types", "go/token", "go/ast",
 	"strconv", "math", "slices", "maps", "iter", "cmp", "errors", "context", "github.com/huandu/xstrings",
-	"github.com/Masterminds/semver/v3", "golang.org/x/mod/modfile", "golang.org/x/mod/module",
+	"github.com/Masterminds/semver/v3", "github.com/xeipuuv/gojsonschema", "golang.org/x/mod/modfile", "golang.org/x/mod/module",
 }
 
 var fsMutators = map[string]bool{
@@ -98,7 +98,7 @@ func (x *Exec) externalEffect(fn *types.Func) effect {
 		return effPure // remaining pathlib methods are path arithmetic
 	}
 	if strings.HasPrefix(pp, "github.com/knadh/koanf") || pp == "github.com/spf13/pflag" || pp == "github.com/spf13/cobra" ||
-		pp == "github.com/xeipuuv/gojsonschema" || pp == "text/template" || pp == "bytes" || pp == "bufio" || pp == "io" ||
+		pp == "text/template" || pp == "bytes" || pp == "bufio" || pp == "io" ||
 		pp == "gopkg.in/yaml.v3" || pp == "go/format" || pp == "golang.org/x/tools/imports" || pp == "net/http" ||
 		strings.HasPrefix(pp, "github.com/jedib0t/go-pretty") || pp == "golang.org/x/term" || pp == "sort" || pp == "sync" ||
 		strings.HasPrefix(pp, "github.com/go-git/go-git") || pp == "github.com/spf13/viper" || pp == "os" || pp == "github.com/go-viper/mapstructure/v2" ||
@@ -235,7 +235,7 @@ func (x *Exec) applyExternal(call *ast.CallExpr, fn *types.Func, eff effect, rec
 	case effPure:
 		for i := 0; i < nres; i++ {
 			rt := sig.Results().At(i).Type()
-			sym := pureName(fn)
+			sym := methodSym(fn, x.recvStatic)
 			if nres > 1 {
 				sym += fmt.Sprintf("_r%d", i)
 			}
@@ -261,7 +261,7 @@ func (x *Exec) applyExternal(call *ast.CallExpr, fn *types.Func, eff effect, rec
 		n := x.ghostCounter(st, "extcalls")
 		for i := 0; i < nres; i++ {
 			rt := sig.Results().At(i).Type()
-			sym := fmt.Sprintf("%s@%d", pureName(fn), i)
+			sym := fmt.Sprintf("%s@%d", methodSym(fn, x.recvStatic), i)
 			v := x.ctx.App(sym, x.sortOf(rt), append([]Term{n}, all...)...)
 			v = x.name(st, "ext", v)
 			x.extResultFacts(st, fn, i, v, rt)
